@@ -150,6 +150,9 @@ func RunC03(ctx *core.Ctx) {
 					// 512-value dictionary insert chunks)
 					n = []int{513, 700, 1100}[r.Intn(3)]
 				}
+				if k == 2 {
+					n = 2
+				}
 				prof := &gen.Profile{NullProb: []float64{0.1, 0.5, 0.9}[r.Intn(3)], MaxLen: 1 + r.Intn(4), SmallDomain: r.Intn(3) == 0}
 				if r.Intn(2) == 0 {
 					prof.RunLen = 70
@@ -157,7 +160,7 @@ func RunC03(ctx *core.Ctx) {
 				if n > 500 {
 					prof.SmallDomain = false // new dictionary values keep appearing late in the batch
 					prof.MaxLen = 2
-				} else if n <= 3 && r.Intn(3) == 0 {
+				} else if k == 2 || n <= 3 && r.Intn(3) == 0 {
 					prof.LongLists = true // one row holding more list elements than any chunk size
 					prof.SmallDomain = false
 				}
